@@ -11,7 +11,10 @@ use std::io;
 use noodles_bgzf as bgzf;
 use noodles_core::{Position, region::Interval};
 
-use super::{BinningIndex, index::reference_sequence::bin::Chunk};
+use super::{
+    BinningIndex,
+    index::reference_sequence::bin::{Chunk, MAX_DEPTH},
+};
 
 /// A binning index.
 #[derive(Clone, Debug, Eq, PartialEq)]
@@ -156,9 +159,29 @@ where
     }
 }
 
-fn max_position(min_shift: u8, depth: u8) -> io::Result<Position> {
-    assert!(min_shift > 0);
-    let n = (1 << (usize::from(min_shift) + 3 * usize::from(depth))) - 1;
+// Returns the last position covered by the binning scheme.
+//
+// This fails if the binning scheme itself is invalid, i.e., `min_shift` is 0, `depth` is greater
+// than `MAX_DEPTH`, or the last position is not representable.
+pub(crate) fn max_position(min_shift: u8, depth: u8) -> io::Result<Position> {
+    if min_shift == 0 {
+        return Err(io::Error::new(
+            io::ErrorKind::InvalidInput,
+            "invalid min shift",
+        ));
+    }
+
+    if depth > MAX_DEPTH {
+        return Err(io::Error::new(io::ErrorKind::InvalidInput, "invalid depth"));
+    }
+
+    let shift = u32::from(min_shift) + 3 * u32::from(depth);
+
+    let n = 1usize
+        .checked_shl(shift)
+        .map(|n| n - 1)
+        .ok_or_else(|| io::Error::new(io::ErrorKind::InvalidInput, "invalid binning scheme"))?;
+
     Position::try_from(n).map_err(|e| io::Error::new(io::ErrorKind::InvalidInput, e))
 }
 
@@ -176,5 +199,25 @@ mod tests {
         assert_eq!(actual, expected);
 
         Ok(())
+    }
+
+    #[test]
+    fn test_max_position_with_invalid_binning_scheme() {
+        fn t(min_shift: u8, depth: u8) {
+            assert!(matches!(
+                max_position(min_shift, depth),
+                Err(e) if e.kind() == io::ErrorKind::InvalidInput
+            ));
+        }
+
+        t(0, 5);
+        t(14, 11);
+        t(14, 255);
+        t(255, 0);
+        t(usize::BITS as u8, 0);
+        t((usize::BITS - 3 * 10) as u8, 10);
+
+        assert!(max_position((usize::BITS - 1) as u8, 0).is_ok());
+        assert!(max_position(1, 10).is_ok());
     }
 }
